@@ -15,12 +15,14 @@ Two routes to the same statement `Frame input output` (Model/Tables.lean):
   `singletons_phased=False`), whole rows are kept when no metadata is written.
 
 tskit's `sort` enters as the contract `SortRel` (edges / migrations permuted, mutation rows permuted
-within their site, the rest untouched); `compute_mutation_parents/times` as "replace that one
-column".  These contracts are assumed, not proved (they are checked on every generated input by
+within their site, the rest untouched); `compute_mutation_parents` as "replace that one column";
+`compute_mutation_times` as `TimesRel` (new `time` column and, as tskit documents and as was
+observed, possibly another permutation of the rows inside a site).  These contracts are assumed, not proved (they are checked on every generated input by
 the harness).
 -/
 import TsdateVerif.Proofs.Pipeline
 import TsdateVerif.Gen.WriteSet
+import Mathlib.Data.List.Sort
 
 namespace Tsdate.C02
 open Tsdate.Tables Tsdate.Pipeline
@@ -47,18 +49,20 @@ theorem frame_of_writes {a b : TableCollection α} (h : Reach Gen.WriteSet.write
 /-- **Frame theorem for the executable model of `get_modified_ts`**, for every input table
 collection, every `Results`, every option set and every environment whose `sort` meets tskit's
 contract. -/
-theorem frame_getModifiedTs (E : Env α) (hsort : ∀ t, SortRel t (E.sort t)) (o : Options)
+theorem frame_getModifiedTs (E : Env α) (hsort : ∀ t, SortRel t (E.sort t))
+    (htimes : ∀ t, TimesRel t (E.computeTimes t)) (o : Options)
     (t0 : TableCollection α) (r : Results α) (out : TableCollection α) (tr : Trace)
     (h : getModifiedTs E o t0 r = some (out, tr)) : Frame t0 out := by
   obtain ⟨t3, t5, t8, h3, h5, h8, rfl⟩ := getModifiedTs_some h
   exact frame_trans (frame_trans (frame_trans (stageMd_spec h3).1 (stageCols_frame h5))
-    (stageTskit_frame hsort h8)) (stageProv_frame E o t8).1
+    (stageTskit_frame hsort htimes h8)) (stageProv_frame E o t8).1
 
 /-- **Mutation nodes are kept unless singletons are unphased.** If the `mutation_node` array of the
 result is the input's node column (what `run` returns for inside_outside and maximization, and what
 `mutation_mapping()` returns when no mutation belongs to an unphased block — `mapping_phased`), the
 output has the same multiset of (site, node, derived state). -/
-theorem mutation_nodes_kept (E : Env α) (hsort : ∀ t, SortRel t (E.sort t)) (o : Options)
+theorem mutation_nodes_kept (E : Env α) (hsort : ∀ t, SortRel t (E.sort t))
+    (htimes : ∀ t, TimesRel t (E.computeTimes t)) (o : Options)
     (t0 : TableCollection α) (r : Results α) (out : TableCollection α) (tr : Trace)
     (h : getModifiedTs E o t0 r = some (out, tr))
     (hnode : r.mutationNode = t0.mutations.map (·.node)) :
@@ -66,25 +70,27 @@ theorem mutation_nodes_kept (E : Env α) (hsort : ∀ t, SortRel t (E.sort t)) (
   obtain ⟨t3, t5, t8, h3, h5, h8, rfl⟩ := getModifiedTs_some h
   have s3 := stageMd_spec h3
   rw [(stageProv_frame E o t8).2]
-  refine (stageTskit_key _ keyOK_key1 hsort h8).trans ?_
+  refine (stageTskit_key _ keyOK_key1 hsort htimes h8).trans ?_
   rw [stageCols_key _ keyOK_key1 h5 (by rw [hnode, s3.2.2.1]), s3.2.1]
 
 /-- The same, site by site: at every site the mutations carry the same multiset of
 (site, node, derived state) before and after (mutation *ids* within a site may be permuted). -/
-theorem mutation_nodes_kept_per_site (E : Env α) (hsort : ∀ t, SortRel t (E.sort t)) (o : Options)
+theorem mutation_nodes_kept_per_site (E : Env α) (hsort : ∀ t, SortRel t (E.sort t))
+    (htimes : ∀ t, TimesRel t (E.computeTimes t)) (o : Options)
     (t0 : TableCollection α) (r : Results α) (out : TableCollection α) (tr : Trace)
     (h : getModifiedTs E o t0 r = some (out, tr))
     (hnode : r.mutationNode = t0.mutations.map (·.node)) (s : Nat) :
     ((out.mutations.filter (fun m => m.site == s)).map MutRow.key1).Perm
       ((t0.mutations.filter (fun m => m.site == s)).map MutRow.key1) := by
-  have hp := (mutation_nodes_kept E hsort o t0 r out tr h hnode).filter (fun k => k.1 == s)
+  have hp := (mutation_nodes_kept E hsort htimes o t0 r out tr h hnode).filter (fun k => k.1 == s)
   rw [List.filter_map, List.filter_map] at hp
   exact hp
 
 /-- When no mutation metadata is written (`set_metadata=False`, a method without mutation
 posteriors, or the warn-and-keep path), whole mutation rows — site, node, derived state *and
 metadata* — survive as a multiset and the schema is kept. -/
-theorem mutation_rows_kept (E : Env α) (hsort : ∀ t, SortRel t (E.sort t)) (o : Options)
+theorem mutation_rows_kept (E : Env α) (hsort : ∀ t, SortRel t (E.sort t))
+    (htimes : ∀ t, TimesRel t (E.computeTimes t)) (o : Options)
     (t0 : TableCollection α) (r : Results α) (out : TableCollection α) (tr : Trace)
     (h : getModifiedTs E o t0 r = some (out, tr))
     (hnode : r.mutationNode = t0.mutations.map (·.node))
@@ -96,13 +102,14 @@ theorem mutation_rows_kept (E : Env α) (hsort : ∀ t, SortRel t (E.sort t)) (o
   obtain ⟨hm, hs⟩ := s3.2.2.2.1 hmd
   constructor
   · rw [(stageProv_frame E o t8).2]
-    refine (stageTskit_key _ keyOK_key2 hsort h8).trans ?_
+    refine (stageTskit_key _ keyOK_key2 hsort htimes h8).trans ?_
     rw [stageCols_key _ keyOK_key2 h5 (by rw [hnode, hm]), hm]
-  · rw [(stageProv_fields E o t8).1, (stageTskit_fields hsort h8).1, (stageCols_fields h5).1, hs]
+  · rw [(stageProv_fields E o t8).1, (stageTskit_fields hsort htimes h8).1, (stageCols_fields h5).1, hs]
 
 /-- When no node metadata is written (maximization, `set_metadata=False`, warn-and-keep), node
 flags, population, individual *and metadata* are kept row by row, and so is the schema. -/
-theorem node_rows_kept (E : Env α) (hsort : ∀ t, SortRel t (E.sort t)) (o : Options)
+theorem node_rows_kept (E : Env α) (hsort : ∀ t, SortRel t (E.sort t))
+    (htimes : ∀ t, TimesRel t (E.computeTimes t)) (o : Options)
     (t0 : TableCollection α) (r : Results α) (out : TableCollection α) (tr : Trace)
     (h : getModifiedTs E o t0 r = some (out, tr))
     (hmd : tr.nodeMd = .skipped ∨ tr.nodeMd = .warned) :
@@ -111,8 +118,40 @@ theorem node_rows_kept (E : Env α) (hsort : ∀ t, SortRel t (E.sort t)) (o : O
   obtain ⟨t3, t5, t8, h3, h5, h8, rfl⟩ := getModifiedTs_some h
   obtain ⟨hn, hs⟩ := (stageMd_spec h3).2.2.2.2 hmd
   constructor
-  · rw [(stageProv_fields E o t8).2.2, (stageTskit_fields hsort h8).2.2, (stageCols_fields h5).2.2, hn]
-  · rw [(stageProv_fields E o t8).2.1, (stageTskit_fields hsort h8).2.1, (stageCols_fields h5).2.1, hs]
+  · rw [(stageProv_fields E o t8).2.2, (stageTskit_fields hsort htimes h8).2.2.1, (stageCols_fields h5).2.2, hn]
+  · rw [(stageProv_fields E o t8).2.1, (stageTskit_fields hsort htimes h8).2.1, (stageCols_fields h5).2.1, hs]
+
+/-- **The executable model is a program over the write-set found in the source**: its output is
+reached from the input by a sequence of statements each of whose kinds occurs in the current
+`get_modified_ts` / `set_time_metadata` / `record_provenance` (model ⊆ code, statement by
+statement; together with `writeSet_allowed` the kinds coincide). -/
+theorem model_within_writeSet (E : Env α) (hsort : ∀ t, SortRel t (E.sort t))
+    (htimes : ∀ t, TimesRel t (E.computeTimes t)) (o : Options)
+    (t0 : TableCollection α) (r : Results α) (out : TableCollection α) (tr : Trace)
+    (h : getModifiedTs E o t0 r = some (out, tr)) : Reach Gen.WriteSet.writeSet t0 out :=
+  reach_mono allowed_in_writeSet (reach_getModifiedTs hsort htimes h)
+
+/-- `time_units` of the output is the requested one, and provenance is the input's rows followed by
+exactly one new row when provenance is recorded, by nothing otherwise. -/
+theorem time_units_and_provenance (E : Env α) (hsort : ∀ t, SortRel t (E.sort t))
+    (htimes : ∀ t, TimesRel t (E.computeTimes t)) (o : Options)
+    (t0 : TableCollection α) (r : Results α) (out : TableCollection α) (tr : Trace)
+    (h : getModifiedTs E o t0 r = some (out, tr)) :
+    out.timeUnits = o.timeUnits ∧
+    ∃ row, out.provenances = t0.provenances ++ (if o.recordProvenance = true then [row] else []) :=
+  provenance_and_units hsort htimes h
+
+/-- The part of `SortRel` that says "the site column stays as it was" follows from two more basic
+facts: `sort` returns whole rows in a permuted order, ordered by site, and the mutations of a valid
+tree sequence are already ordered by site. -/
+theorem sort_site_column (a b : List (MutRow α))
+    (hperm : (b.map MutRow.noParent).Perm (a.map MutRow.noParent))
+    (ha : (a.map (·.site)).Pairwise (· ≤ ·)) (hb : (b.map (·.site)).Pairwise (· ≤ ·)) :
+    b.map (·.site) = a.map (·.site) := by
+  have hp : (b.map (·.site)).Perm (a.map (·.site)) := by
+    have := hperm.map (fun m : MutRow α => m.site)
+    simpa [List.map_map, Function.comp_def, MutRow.noParent] using this
+  exact List.Perm.eq_of_pairwise (fun _ _ _ _ h1 h2 => Nat.le_antisymm h1 h2) hb ha hp
 
 /-- `mutation_mapping()` is the input's node column when no mutation belongs to a block of
 unphased singletons (`mutation_blocks` all `NULL`, which is what `block_singletons` returns when
@@ -161,7 +200,7 @@ def env : Env Nat where
   unknownTime := 0
   sort := swapSort
   computeParents t := t.mutations.map (fun _ => -1)
-  computeTimes t := t.mutations.map (fun _ => 7)
+  computeTimes t := { t with mutations := t.mutations.map (·.setTime 7) }
   provRow _ := ⟨"now", "tsdate"⟩
 
 def input : TableCollection Nat where
@@ -214,6 +253,13 @@ theorem swapIf_sites : ∀ l : List (MutRow Nat),
       simp [this]
     · rfl
 
+theorem times_ok : ∀ t, TimesRel t (env.computeTimes t) := fun t =>
+  ⟨by show (List.map MutRow.key2 (t.mutations.map (·.setTime 7))).Perm _
+      rw [List.map_map]; exact List.Perm.refl _,
+   by show List.map (·.site) (t.mutations.map (·.setTime 7)) = _
+      rw [List.map_map]; rfl,
+   by cases t; rfl⟩
+
 theorem swapSort_ok : ∀ t, SortRel t (swapSort t) := fun t =>
   ⟨swap2_perm _, (swapIf_perm _ _).map _, swapIf_sites _, List.Perm.refl _, by cases t; rfl⟩
 
@@ -230,8 +276,8 @@ example : ∃ out tr, getModifiedTs env opts input res = some (out, tr) ∧ Fram
   cases h : getModifiedTs env opts input res with
   | none => exact absurd h (by decide +kernel)
   | some x =>
-    exact ⟨x.1, x.2, rfl, frame_getModifiedTs env swapSort_ok opts input res x.1 x.2 h,
-      mutation_nodes_kept env swapSort_ok opts input res x.1 x.2 h (by decide)⟩
+    exact ⟨x.1, x.2, rfl, frame_getModifiedTs env swapSort_ok times_ok opts input res x.1 x.2 h,
+      mutation_nodes_kept env swapSort_ok times_ok opts input res x.1 x.2 h (by decide)⟩
 
 end Example
 
